@@ -65,6 +65,7 @@ class Worker:
         self.done = 0
         self.dead = False
         self.quitting = False
+        self.recycling = False
 
     def send(self, idxs):
         self.queue += idxs
@@ -178,6 +179,8 @@ def main():
                         except ValueError: pass
         elif parts[0] == "states":
             states.setdefault(parts[1], set()).update(parts[2:])
+        elif parts[0] == "recycle":
+            w.recycling = True
         elif parts[0] == "hang":
             if w.begun is not None: hung.append(w.begun)
 
@@ -222,9 +225,14 @@ def main():
             if not data:
                 w.dead = True
                 w.p.wait()
+                # drain what was still buffered before the end of file
+                while b"\n" in w.buf:
+                    ln, w.buf = w.buf.split(b"\n", 1)
+                    handle_line(w, ln.decode("ascii", "replace"))
                 if not w.quitting:
-                    # the worker died: the run it had begun is the suspect; the rest of its queue is handed on
-                    bad = w.begun
+                    # the worker died: the run it had begun is the suspect; the rest of its queue is handed on.
+                    # (a worker that announced "recycle" retired on purpose: nothing is suspect)
+                    bad = None if w.recycling else w.begun
                     rest = [i for i in w.queue if i != bad]
                     if bad is not None: crashed.append(bad)
                     nw = Worker(w.k, engine, tier, seed)
@@ -244,7 +252,15 @@ def main():
 
     # ---- classify runs that killed a worker ---------------------------------
     harness_problem = []
-    for idx in sorted(set(crashed + hung)):
+    # a run that ran into the worker's alarm is a hang by definition; it is not executed again just to be named
+    for idx in sorted(set(hung)):
+        results[idx] = ("0" * 16, False, prop + ":hang", 0, True, 0)
+    crashed = [i for i in crashed if i not in set(hung)]
+    unclassified = 0
+    if len(set(crashed)) > 60:
+        unclassified = len(set(crashed)) - 60
+        log("note: %d runs killed a worker; the first 60 are classified one by one" % len(set(crashed)))
+    for idx in sorted(set(crashed))[:60]:
         p = subprocess.run(["build/" + engine, "--run-index", str(idx), "--tier", tier, "--seed", str(seed)],
                            stdout=subprocess.PIPE, stderr=subprocess.PIPE, text=True)
         m = re.search(r"^end (\d+) (\S+) (\S+) (\S+) (-?\d+)", p.stdout, re.M)
@@ -255,8 +271,25 @@ def main():
             harness_problem.append("run %d killed a worker but passes in isolation" % idx); continue
         results[idx] = (m.group(2), False, m.group(4), int(m.group(5)), True, 0)
 
+    # ---- runs that did not repeat: harness trouble, or the subject reading what the plan does not determine? -----
+    address_dependent = []
+    still_bad = []
+    for (idx, h1, h2) in det_mismatch[:12]:
+        pp = "replays/tmp/%s-det-%d.plan" % (prop, idx)
+        os.makedirs("replays/tmp", exist_ok=True)
+        subprocess.run(["build/" + engine, "--gen", str(idx), "--tier", tier, "--seed", str(seed), "--out", pp], check=False)
+        pr = subprocess.run(["build/" + engine, "--aslr-probe", pp], stdout=subprocess.PIPE, stderr=subprocess.PIPE, text=True).stdout
+        if "stable-without-aslr=yes differs-with-aslr=yes" in pr:
+            address_dependent.append(idx)
+        else:
+            still_bad.append((idx, h1, h2))
+    det_mismatch_total = len(det_mismatch)
+    det_mismatch = still_bad + det_mismatch[12:]
+
     # ---- violations: one representative (the shortest plan) per class ---------
     by_class = {}
+    for idx in address_dependent:
+        by_class.setdefault(prop + ":address-dependent-output", []).append((results[idx][5] if idx in results else 10**6, idx))
     for idx, r in results.items():
         if not r[1]:
             c = by_class.setdefault(r[2], [])
@@ -267,6 +300,18 @@ def main():
         known = json.load(open(kf_path)).get("findings", [])
     new_violations = []
     known_hits = []
+    # every listed (status=known) finding is replayed from its committed replay file, whatever this batch sampled
+    announced = set()
+    for k in known:
+        if k.get("property") != prop or k.get("status") != "known" or not k.get("replay_file"): continue
+        r = subprocess.run(["build/" + engine, "--replay", k["replay_file"]], stdout=subprocess.PIPE, stderr=subprocess.PIPE, text=True)
+        m = re.search(r"^replay viol class=(\S+)", r.stdout, re.M)
+        if r.returncode == 1 and m and m.group(1) == k["class"]:
+            log("KNOWN-FINDING: property=%s %s [class %s, replay %s]" % (prop, k.get("what", ""), k["class"], k["replay_file"]))
+            announced.add(k["class"])
+            known_hits.append(dict(cls=k["class"], count=0, what=k.get("what", ""), replay=k["replay_file"]))
+        else:
+            log("note: listed finding %s no longer reproduces from %s (%s)" % (k["class"], k["replay_file"], r.stdout.strip()[-160:]))
     os.makedirs("replays", exist_ok=True)
     os.makedirs("replays/tmp", exist_ok=True)
     classes = sorted(by_class.items(), key=lambda kv: (-len(kv[1]), kv[0]))
@@ -295,7 +340,9 @@ def main():
         rj = json.load(open(rp))
         if entry:
             known_hits.append(dict(cls=cls, count=len(lst), what=entry.get("what", ""), replay=rp))
-            log("KNOWN-FINDING: property=%s %s [class %s, %d runs, replay %s]" % (prop, entry.get("what", ""), cls, len(lst), rp))
+            if cls not in announced:
+                log("KNOWN-FINDING: property=%s %s [class %s, %d runs, replay %s]" % (prop, entry.get("what", ""), cls, len(lst), rp))
+                announced.add(cls)
         else:
             new_violations.append(dict(cls=cls, count=len(lst), replay=rp, note=rj.get("note", ""), steps=rj.get("steps")))
     skipped_classes = [c for c, _ in classes[args.max_classes:]]
@@ -358,7 +405,7 @@ def main():
         counters=other,
         probe_hits=probes,
         distinct_states={k: len(v) for k, v in states.items()},
-        determinism=dict(sample=det_checked, mismatches=len(det_mismatch), note="sampled runs executed a second time (other position in the batch, usually another worker process) and log hashes compared"),
+        determinism=dict(sample=det_checked, mismatches=det_mismatch_total, explained_as_address_dependence=len(address_dependent), note="sampled runs executed a second time (other position in the batch, usually another worker process) and log hashes compared"),
         worker_deaths=len(crashed),
         hangs=len(hung),
         violation_classes=sorted(by_class.keys()),
